@@ -1,13 +1,501 @@
-//! C20: block_on / AtomicWaker (filled in later).
+//! C20: `future::block_on` and `AtomicWaker` never lose a wake-up.
+//!
+//! Generated programs: main runs one or two `block_on` calls in sequence. Each task's future
+//! polls a counter; 1-2 waking threads per task bump the counter and wake in a generated order
+//! (wake before the bump = planted lost wake-up, no wake at all = planted deadlock). Wakers are
+//! either handed a clone of `cx.waker()` at the first poll, or all tasks register in one shared
+//! `AtomicWaker` (register-then-check, check-then-register = planted lost wake-up, or
+//! check-register-check) and the waking threads call `AtomicWaker::wake`.
+//!
+//! Reference R-FUT: explicit-state interleaving model (counter, one `Notify` per task with a
+//! stored flag and a single spurious return, one waker slot for the AtomicWaker). Oracle:
+//! the set of (polls per task) outcomes of loom equals the reference's, and loom reports a
+//! deadlock iff the reference reaches one.
+
+use crate::case::*;
+use crate::gen::Src;
+use crate::interp::panic_msg;
+use crate::props::sc::panic_kind;
 use serde::{Deserialize, Serialize};
+use std::collections::{BTreeSet, HashSet};
+
+#[derive(Clone, Copy, Debug, PartialEq, Eq, Hash, Serialize, Deserialize)]
+pub enum WOp {
+    Bump,
+    Wake,
+    WakeByRef,
+}
+
+#[derive(Clone, Debug, PartialEq, Eq, Hash, Serialize, Deserialize, Default)]
+pub struct Task {
+    /// 0 register-then-check, 1 check-then-register (lossy), 2 check-register-check (AtomicWaker mode only)
+    pub order: u8,
+    pub wakers: Vec<Vec<WOp>>,
+    /// the future is ready when the counter reached this value
+    pub need: u8,
+    /// waking threads are spawned inside the first poll (always so without AtomicWaker)
+    pub spawn_in_poll: bool,
+}
 
 #[derive(Clone, Debug, PartialEq, Eq, Hash, Serialize, Deserialize, Default)]
 pub struct FutCase {
-    pub placeholder: u8,
+    pub atomic_waker: bool,
+    pub tasks: Vec<Task>,
 }
 
 impl FutCase {
     pub fn describe(&self) -> String {
-        format!("{:?}", self)
+        let t: Vec<String> = self
+            .tasks
+            .iter()
+            .map(|t| {
+                let w: Vec<String> = t.wakers.iter().map(|ops| format!("{:?}", ops)).collect();
+                format!("task(order={}, need={}, spawn_in_poll={}, wakers={})", t.order, t.need, t.spawn_in_poll, w.join(" | "))
+            })
+            .collect();
+        format!("futures[{}] {}", if self.atomic_waker { "AtomicWaker" } else { "cx.waker clones" }, t.join(" ; "))
     }
+}
+
+pub fn build(draws: &[u16], _tier: Tier) -> Case {
+    let mut s = Src::new(draws);
+    let atomic_waker = s.chance(1, 2);
+    let ntasks = if s.chance(1, 3) { 2 } else { 1 };
+    let mut tasks = vec![];
+    for _ in 0..ntasks {
+        let nw = if ntasks == 2 { 1 } else { s.range(1, 2) };
+        let mut wakers = vec![];
+        let mut bumps = 0;
+        for _ in 0..nw {
+            let ops = match s.pick(8) {
+                0 | 1 | 2 | 3 => vec![WOp::Bump, WOp::Wake],
+                4 => vec![WOp::Bump, WOp::WakeByRef],
+                5 => vec![WOp::Wake, WOp::Bump],                 // planted: wake before the bump
+                6 => vec![WOp::Bump],                            // planted: no wake
+                _ if nw == 1 && ntasks == 1 => vec![WOp::Bump, WOp::Wake, WOp::Bump, WOp::Wake],
+                _ => vec![WOp::Bump, WOp::Wake],
+            };
+            bumps += ops.iter().filter(|o| **o == WOp::Bump).count();
+            wakers.push(ops);
+        }
+        let need = if s.chance(1, 5) { s.range(1, bumps.max(1)) } else { bumps.max(1) } as u8;
+        tasks.push(Task {
+            order: if atomic_waker { [0, 0, 2, 1][s.pick(4)] } else { 0 },
+            wakers,
+            need,
+            spawn_in_poll: !atomic_waker || s.chance(1, 2),
+        });
+    }
+    let mut c = Case::new("C20", if atomic_waker { "atomic-waker" } else { "waker-clone" }, Default::default());
+    c.x.fut = Some(FutCase { atomic_waker, tasks });
+    c.cfg.max_permutations = Some(30_000);
+    // two tasks or two waking threads: the full exploration exceeds the iteration cap; explore with a
+    // preemption bound instead and check only what holds for a subset of the executions
+    if ntasks == 2 || c.x.fut.as_ref().map(|f| f.tasks.iter().any(|t| t.wakers.len() == 2)).unwrap_or(false) {
+        c.cfg.preemption_bound = Some(2);
+    }
+    c.cfg.max_branches = 5000;
+    c
+}
+
+// ---------------------------------------------------------------------------------
+// the real thing
+// ---------------------------------------------------------------------------------
+
+type Outcome = Vec<u8>; // polls per task
+
+fn run_loom(fc: &FutCase, cfg: &crate::dsl::Config) -> (BTreeSet<Outcome>, Option<String>, usize, bool) {
+    use loom::future::{block_on, AtomicWaker};
+    use loom::sync::atomic::{AtomicUsize, Ordering::SeqCst};
+    use loom::sync::Arc;
+    use std::sync::{Arc as SArc, Mutex as SMutex};
+    use std::task::{Context, Poll, Waker};
+
+    let outcomes: SArc<SMutex<BTreeSet<Outcome>>> = SArc::new(SMutex::new(BTreeSet::new()));
+    let iters = SArc::new(std::sync::atomic::AtomicUsize::new(0));
+    let mut b = loom::model::Builder::new();
+    b.max_threads = cfg.max_threads;
+    b.max_branches = cfg.max_branches;
+    b.max_permutations = cfg.max_permutations;
+    b.preemption_bound = cfg.preemption_bound;
+    b.checkpoint_interval = 64;
+    b.checkpoint_file = None;
+    b.max_duration = None;
+    b.location = false;
+    b.log = false;
+    let fc = fc.clone();
+    let (o2, i2) = (outcomes.clone(), iters.clone());
+    let r = std::panic::catch_unwind(std::panic::AssertUnwindSafe(|| {
+        b.check(move || {
+            i2.fetch_add(1, std::sync::atomic::Ordering::SeqCst);
+            let aw = Arc::new(AtomicWaker::new());
+            let mut polls_all: Vec<u8> = vec![];
+            for task in fc.tasks.iter() {
+                let counter = Arc::new(AtomicUsize::new(0));
+                let is_aw_mode = fc.atomic_waker;
+                let handles: std::cell::RefCell<Vec<loom::thread::JoinHandle<()>>> = std::cell::RefCell::new(vec![]);
+                // a `wake()` consumes its waker: every waking thread gets as many clones as it has Wake ops
+                let spawn_wakers = |cxw: Option<&Waker>, counter: &Arc<AtomicUsize>, aw: &Arc<AtomicWaker>| {
+                    for ops in task.wakers.iter() {
+                        let (ops2, c2, a2) = (ops.clone(), counter.clone(), aw.clone());
+                        let n_wake = ops.iter().filter(|o| **o == WOp::Wake).count();
+                        let mut clones: Vec<Waker> = match cxw {
+                            Some(w) => (0..n_wake + 1).map(|_| w.clone()).collect(),
+                            None => vec![],
+                        };
+                        let h = loom::thread::spawn(move || {
+                            for op in ops2 {
+                                match op {
+                                    WOp::Bump => {
+                                        c2.fetch_add(1, SeqCst);
+                                    }
+                                    WOp::Wake => {
+                                        if is_aw_mode {
+                                            a2.wake();
+                                        } else if let Some(w) = clones.pop() {
+                                            w.wake();
+                                        }
+                                    }
+                                    WOp::WakeByRef => {
+                                        if is_aw_mode {
+                                            a2.wake();
+                                        } else if let Some(w) = clones.last() {
+                                            w.wake_by_ref();
+                                        }
+                                    }
+                                }
+                            }
+                        });
+                        handles.borrow_mut().push(h);
+                    }
+                };
+                if fc.atomic_waker && !task.spawn_in_poll {
+                    spawn_wakers(None, &counter, &aw);
+                }
+                let mut polls: u8 = 0;
+                let need = task.need as usize;
+                let order = task.order;
+                let spawn_in_poll = task.spawn_in_poll;
+                let is_aw = fc.atomic_waker;
+                let fut = std::future::poll_fn(|cx: &mut Context<'_>| {
+                    polls += 1;
+                    if polls == 1 && spawn_in_poll {
+                        if is_aw {
+                            spawn_wakers(None, &counter, &aw);
+                        } else {
+                            spawn_wakers(Some(cx.waker()), &counter, &aw);
+                        }
+                    }
+                    if is_aw && order == 0 {
+                        aw.register_by_ref(cx.waker());
+                    }
+                    if counter.load(SeqCst) >= need {
+                        return Poll::Ready(());
+                    }
+                    if is_aw && order != 0 {
+                        aw.register_by_ref(cx.waker());
+                        if order == 2 && counter.load(SeqCst) >= need {
+                            return Poll::Ready(());
+                        }
+                    }
+                    Poll::Pending
+                });
+                block_on(fut);
+                polls_all.push(polls);
+                // the waking threads of a task are joined before the next task starts
+                for h in handles.borrow_mut().drain(..) {
+                    h.join().unwrap();
+                }
+            }
+            o2.lock().unwrap().insert(polls_all);
+        })
+    }));
+    let panic = r.err().map(panic_msg);
+    let n = iters.load(std::sync::atomic::Ordering::SeqCst);
+    let capped = panic.is_none() && cfg.max_permutations.map(|m| n + 64 >= m).unwrap_or(false);
+    let out = outcomes.lock().unwrap().clone();
+    (out, panic, n, capped)
+}
+
+// ---------------------------------------------------------------------------------
+// R-FUT: the reference
+// ---------------------------------------------------------------------------------
+
+#[derive(Clone, PartialEq, Eq, Hash, Debug)]
+struct FSt {
+    task: usize,
+    /// main's position inside the current task: 0 before block_on, 1.. steps of a poll, 100 = decide wait, 101 = committed real wait
+    phase: u8,
+    polls: Vec<u8>,
+    counter: Vec<u8>,
+    notified: Vec<bool>,
+    spurred: Vec<bool>,
+    /// AtomicWaker slot: task whose waker is registered
+    slot: Option<u8>,
+    /// waking threads: (task, index) -> (started, pc)
+    wk: Vec<(bool, u8)>,
+    done: bool,
+}
+
+struct Fut<'a> {
+    fc: &'a FutCase,
+    /// flat index of waking thread j of task t
+    base: Vec<usize>,
+}
+
+impl<'a> Fut<'a> {
+    fn new(fc: &'a FutCase) -> Fut<'a> {
+        let mut base = vec![];
+        let mut n = 0;
+        for t in &fc.tasks {
+            base.push(n);
+            n += t.wakers.len();
+        }
+        Fut { fc, base }
+    }
+    fn init(&self) -> FSt {
+        let nt = self.fc.tasks.len();
+        let nw: usize = self.fc.tasks.iter().map(|t| t.wakers.len()).sum();
+        FSt {
+            task: 0,
+            phase: 0,
+            polls: vec![0; nt],
+            counter: vec![0; nt],
+            notified: vec![false; nt],
+            spurred: vec![false; nt],
+            slot: None,
+            wk: vec![(false, 0); nw],
+            done: false,
+        }
+    }
+    fn start_wakers(&self, s: &mut FSt, t: usize) {
+        for j in 0..self.fc.tasks[t].wakers.len() {
+            s.wk[self.base[t] + j].0 = true;
+        }
+    }
+    /// successors of main
+    fn main_steps(&self, st: &FSt, out: &mut Vec<FSt>) {
+        if st.done {
+            return;
+        }
+        let t = st.task;
+        let task = &self.fc.tasks[t];
+        let aw = self.fc.atomic_waker;
+        let mut s = st.clone();
+        let ready = |s: &FSt| s.counter[t] >= task.need;
+        let finish = |s: &mut FSt| {
+            // (block_on returned; the join of the task's waking threads is phase 200)
+            s.phase = 200;
+        };
+        match st.phase {
+            0 => {
+                // before block_on: spawn the waking threads (AtomicWaker mode, not in poll)
+                if aw && !task.spawn_in_poll {
+                    self.start_wakers(&mut s, t);
+                }
+                s.phase = 1;
+                out.push(s);
+            }
+            1 => {
+                // start of a poll
+                s.polls[t] += 1;
+                if s.polls[t] == 1 && task.spawn_in_poll {
+                    self.start_wakers(&mut s, t);
+                }
+                s.phase = if aw && task.order == 0 { 2 } else { 3 };
+                out.push(s);
+            }
+            2 => {
+                // register (order 0)
+                s.slot = Some(t as u8);
+                s.phase = 3;
+                out.push(s);
+            }
+            3 => {
+                // first check
+                if ready(&s) {
+                    finish(&mut s);
+                } else if aw && task.order != 0 {
+                    s.phase = 4;
+                } else {
+                    s.phase = 100;
+                }
+                out.push(s);
+            }
+            4 => {
+                // register after the check
+                s.slot = Some(t as u8);
+                s.phase = if task.order == 2 { 5 } else { 100 };
+                out.push(s);
+            }
+            5 => {
+                // second check
+                if ready(&s) {
+                    finish(&mut s);
+                } else {
+                    s.phase = 100;
+                }
+                out.push(s);
+            }
+            100 => {
+                // Notify::wait: the single spurious return, or a real wait
+                if !s.spurred[t] {
+                    let mut s2 = s.clone();
+                    s2.spurred[t] = true;
+                    s2.phase = 1;
+                    out.push(s2);
+                }
+                s.phase = 101;
+                out.push(s);
+            }
+            101 => {
+                if s.notified[t] {
+                    s.notified[t] = false;
+                    s.phase = 1;
+                    out.push(s);
+                }
+            }
+            200 => {
+                let all_done = (0..task.wakers.len()).all(|j| {
+                    let (started, pc) = s.wk[self.base[t] + j];
+                    started && pc as usize >= task.wakers[j].len()
+                });
+                if all_done {
+                    if t + 1 < self.fc.tasks.len() {
+                        s.task = t + 1;
+                        s.phase = 0;
+                    } else {
+                        s.done = true;
+                    }
+                    out.push(s);
+                }
+            }
+            _ => {}
+        }
+    }
+    fn waker_steps(&self, st: &FSt, t: usize, j: usize, out: &mut Vec<FSt>) {
+        let idx = self.base[t] + j;
+        let (started, pc) = st.wk[idx];
+        let ops = &self.fc.tasks[t].wakers[j];
+        if !started || pc as usize >= ops.len() {
+            return;
+        }
+        let mut s = st.clone();
+        match ops[pc as usize] {
+            WOp::Bump => s.counter[t] += 1,
+            WOp::Wake | WOp::WakeByRef => {
+                if self.fc.atomic_waker {
+                    if let Some(x) = s.slot.take() {
+                        s.notified[x as usize] = true;
+                    }
+                } else {
+                    s.notified[t] = true;
+                }
+            }
+        }
+        s.wk[idx].1 += 1;
+        out.push(s);
+    }
+    fn explore(&self) -> (BTreeSet<Outcome>, bool, usize) {
+        let mut seen: HashSet<FSt> = HashSet::new();
+        let mut stack = vec![self.init()];
+        let mut outs = BTreeSet::new();
+        let mut deadlock = false;
+        let mut next = vec![];
+        while let Some(st) = stack.pop() {
+            if !seen.insert(st.clone()) {
+                continue;
+            }
+            next.clear();
+            self.main_steps(&st, &mut next);
+            for t in 0..self.fc.tasks.len() {
+                for j in 0..self.fc.tasks[t].wakers.len() {
+                    self.waker_steps(&st, t, j, &mut next);
+                }
+            }
+            if next.is_empty() {
+                if st.done {
+                    outs.insert(st.polls.clone());
+                } else {
+                    deadlock = true;
+                }
+            }
+            // main done but waking threads still running: outcome is fixed already
+            if st.done {
+                outs.insert(st.polls.clone());
+            }
+            stack.extend(next.drain(..));
+        }
+        (outs, deadlock, seen.len())
+    }
+}
+
+pub fn eval(case: &Case) -> Verdict {
+    let fc = match &case.x.fut {
+        Some(f) => f.clone(),
+        None => return Verdict::skip("no future table"),
+    };
+    let mut v = Verdict::pass();
+    // sanity of the table
+    let nthreads: usize = 1 + fc.tasks.iter().map(|t| t.wakers.len()).sum::<usize>();
+    if nthreads > 5 || fc.tasks.is_empty() {
+        return Verdict::skip("ill-formed future table");
+    }
+    let r = Fut::new(&fc);
+    let (expect, deadlock, states) = r.explore();
+    v.ref_states = states as u64;
+    let (l, panic, iters, capped) = run_loom(&fc, &case.cfg);
+    v.loom_iters = iters as u64;
+    if capped {
+        return Verdict::skip("capped");
+    }
+    v.label(if fc.atomic_waker { "atomic_waker" } else { "waker_clone" });
+    v.label(&format!("tasks{}", fc.tasks.len()));
+    if deadlock {
+        v.label("deadlock_reachable");
+    }
+    if fc.tasks.iter().any(|t| t.order == 1) {
+        v.label("check_then_register");
+    }
+    if fc.tasks.iter().any(|t| t.wakers.iter().any(|w| w.first() == Some(&WOp::Wake))) {
+        v.label("wake_before_bump");
+    }
+    let maxp = expect.iter().map(|o| *o.iter().max().unwrap_or(&0)).max().unwrap_or(0);
+    if maxp >= 3 {
+        v.label("three_polls_possible");
+    }
+    v.nontrivial = expect.len() >= 2 || deadlock;
+    v.detail = serde_json::json!({
+        "expected_polls": expect.iter().map(|o| format!("{:?}", o)).collect::<Vec<_>>(),
+        "observed_polls": l.iter().map(|o| format!("{:?}", o)).collect::<Vec<_>>(),
+        "deadlock_reachable": deadlock, "loom": {"iterations": iters, "panic": panic},
+    });
+    match &panic {
+        Some(m) => {
+            let k = panic_kind(m);
+            if k != "deadlock" {
+                return v.fail("unexpected_panic", format!("model run panicked with `{}`", m));
+            }
+            if !deadlock {
+                return v.fail("false_deadlock", format!("loom reported `{}` but in the reference every wait is eventually followed by a wake (lost wake-up)", m));
+            }
+        }
+        None => {
+            if deadlock && case.cfg.preemption_bound.is_none() {
+                return v.fail("missed_deadlock", format!("the reference reaches a state in which the blocked future can never be woken, but the run completed ({} iterations)", iters));
+            }
+        }
+    }
+    if let Some(x) = l.iter().find(|x| !expect.contains(*x)) {
+        return v.fail("impossible_poll_count", format!("block_on polled {:?} times (per task); the reference allows only {:?} (a re-poll without a wake or the one spurious return)", x, expect));
+    }
+    if case.cfg.preemption_bound.is_some() {
+        v.label("preemption_bounded_subset_only");
+    }
+    if panic.is_none() && case.cfg.preemption_bound.is_none() {
+        if let Some(x) = expect.iter().find(|x| !l.contains(*x)) {
+            return v.fail("missing_outcome", format!("poll counts {:?} are possible but never explored (explored: {:?})", x, l));
+        }
+    }
+    v
 }
